@@ -10,6 +10,264 @@
 From KS Require Import lib.Base lib.RecVarint model.Rewrite.
 Open Scope Z_scope.
 
+(* byte constants used by the emitted cases files (faster to elaborate than number literals) *)
+Definition b00 : Z := 0.
+Definition b01 : Z := 1.
+Definition b02 : Z := 2.
+Definition b03 : Z := 3.
+Definition b04 : Z := 4.
+Definition b05 : Z := 5.
+Definition b06 : Z := 6.
+Definition b07 : Z := 7.
+Definition b08 : Z := 8.
+Definition b09 : Z := 9.
+Definition b0a : Z := 10.
+Definition b0b : Z := 11.
+Definition b0c : Z := 12.
+Definition b0d : Z := 13.
+Definition b0e : Z := 14.
+Definition b0f : Z := 15.
+Definition b10 : Z := 16.
+Definition b11 : Z := 17.
+Definition b12 : Z := 18.
+Definition b13 : Z := 19.
+Definition b14 : Z := 20.
+Definition b15 : Z := 21.
+Definition b16 : Z := 22.
+Definition b17 : Z := 23.
+Definition b18 : Z := 24.
+Definition b19 : Z := 25.
+Definition b1a : Z := 26.
+Definition b1b : Z := 27.
+Definition b1c : Z := 28.
+Definition b1d : Z := 29.
+Definition b1e : Z := 30.
+Definition b1f : Z := 31.
+Definition b20 : Z := 32.
+Definition b21 : Z := 33.
+Definition b22 : Z := 34.
+Definition b23 : Z := 35.
+Definition b24 : Z := 36.
+Definition b25 : Z := 37.
+Definition b26 : Z := 38.
+Definition b27 : Z := 39.
+Definition b28 : Z := 40.
+Definition b29 : Z := 41.
+Definition b2a : Z := 42.
+Definition b2b : Z := 43.
+Definition b2c : Z := 44.
+Definition b2d : Z := 45.
+Definition b2e : Z := 46.
+Definition b2f : Z := 47.
+Definition b30 : Z := 48.
+Definition b31 : Z := 49.
+Definition b32 : Z := 50.
+Definition b33 : Z := 51.
+Definition b34 : Z := 52.
+Definition b35 : Z := 53.
+Definition b36 : Z := 54.
+Definition b37 : Z := 55.
+Definition b38 : Z := 56.
+Definition b39 : Z := 57.
+Definition b3a : Z := 58.
+Definition b3b : Z := 59.
+Definition b3c : Z := 60.
+Definition b3d : Z := 61.
+Definition b3e : Z := 62.
+Definition b3f : Z := 63.
+Definition b40 : Z := 64.
+Definition b41 : Z := 65.
+Definition b42 : Z := 66.
+Definition b43 : Z := 67.
+Definition b44 : Z := 68.
+Definition b45 : Z := 69.
+Definition b46 : Z := 70.
+Definition b47 : Z := 71.
+Definition b48 : Z := 72.
+Definition b49 : Z := 73.
+Definition b4a : Z := 74.
+Definition b4b : Z := 75.
+Definition b4c : Z := 76.
+Definition b4d : Z := 77.
+Definition b4e : Z := 78.
+Definition b4f : Z := 79.
+Definition b50 : Z := 80.
+Definition b51 : Z := 81.
+Definition b52 : Z := 82.
+Definition b53 : Z := 83.
+Definition b54 : Z := 84.
+Definition b55 : Z := 85.
+Definition b56 : Z := 86.
+Definition b57 : Z := 87.
+Definition b58 : Z := 88.
+Definition b59 : Z := 89.
+Definition b5a : Z := 90.
+Definition b5b : Z := 91.
+Definition b5c : Z := 92.
+Definition b5d : Z := 93.
+Definition b5e : Z := 94.
+Definition b5f : Z := 95.
+Definition b60 : Z := 96.
+Definition b61 : Z := 97.
+Definition b62 : Z := 98.
+Definition b63 : Z := 99.
+Definition b64 : Z := 100.
+Definition b65 : Z := 101.
+Definition b66 : Z := 102.
+Definition b67 : Z := 103.
+Definition b68 : Z := 104.
+Definition b69 : Z := 105.
+Definition b6a : Z := 106.
+Definition b6b : Z := 107.
+Definition b6c : Z := 108.
+Definition b6d : Z := 109.
+Definition b6e : Z := 110.
+Definition b6f : Z := 111.
+Definition b70 : Z := 112.
+Definition b71 : Z := 113.
+Definition b72 : Z := 114.
+Definition b73 : Z := 115.
+Definition b74 : Z := 116.
+Definition b75 : Z := 117.
+Definition b76 : Z := 118.
+Definition b77 : Z := 119.
+Definition b78 : Z := 120.
+Definition b79 : Z := 121.
+Definition b7a : Z := 122.
+Definition b7b : Z := 123.
+Definition b7c : Z := 124.
+Definition b7d : Z := 125.
+Definition b7e : Z := 126.
+Definition b7f : Z := 127.
+Definition b80 : Z := 128.
+Definition b81 : Z := 129.
+Definition b82 : Z := 130.
+Definition b83 : Z := 131.
+Definition b84 : Z := 132.
+Definition b85 : Z := 133.
+Definition b86 : Z := 134.
+Definition b87 : Z := 135.
+Definition b88 : Z := 136.
+Definition b89 : Z := 137.
+Definition b8a : Z := 138.
+Definition b8b : Z := 139.
+Definition b8c : Z := 140.
+Definition b8d : Z := 141.
+Definition b8e : Z := 142.
+Definition b8f : Z := 143.
+Definition b90 : Z := 144.
+Definition b91 : Z := 145.
+Definition b92 : Z := 146.
+Definition b93 : Z := 147.
+Definition b94 : Z := 148.
+Definition b95 : Z := 149.
+Definition b96 : Z := 150.
+Definition b97 : Z := 151.
+Definition b98 : Z := 152.
+Definition b99 : Z := 153.
+Definition b9a : Z := 154.
+Definition b9b : Z := 155.
+Definition b9c : Z := 156.
+Definition b9d : Z := 157.
+Definition b9e : Z := 158.
+Definition b9f : Z := 159.
+Definition ba0 : Z := 160.
+Definition ba1 : Z := 161.
+Definition ba2 : Z := 162.
+Definition ba3 : Z := 163.
+Definition ba4 : Z := 164.
+Definition ba5 : Z := 165.
+Definition ba6 : Z := 166.
+Definition ba7 : Z := 167.
+Definition ba8 : Z := 168.
+Definition ba9 : Z := 169.
+Definition baa : Z := 170.
+Definition bab : Z := 171.
+Definition bac : Z := 172.
+Definition bad : Z := 173.
+Definition bae : Z := 174.
+Definition baf : Z := 175.
+Definition bb0 : Z := 176.
+Definition bb1 : Z := 177.
+Definition bb2 : Z := 178.
+Definition bb3 : Z := 179.
+Definition bb4 : Z := 180.
+Definition bb5 : Z := 181.
+Definition bb6 : Z := 182.
+Definition bb7 : Z := 183.
+Definition bb8 : Z := 184.
+Definition bb9 : Z := 185.
+Definition bba : Z := 186.
+Definition bbb : Z := 187.
+Definition bbc : Z := 188.
+Definition bbd : Z := 189.
+Definition bbe : Z := 190.
+Definition bbf : Z := 191.
+Definition bc0 : Z := 192.
+Definition bc1 : Z := 193.
+Definition bc2 : Z := 194.
+Definition bc3 : Z := 195.
+Definition bc4 : Z := 196.
+Definition bc5 : Z := 197.
+Definition bc6 : Z := 198.
+Definition bc7 : Z := 199.
+Definition bc8 : Z := 200.
+Definition bc9 : Z := 201.
+Definition bca : Z := 202.
+Definition bcb : Z := 203.
+Definition bcc : Z := 204.
+Definition bcd : Z := 205.
+Definition bce : Z := 206.
+Definition bcf : Z := 207.
+Definition bd0 : Z := 208.
+Definition bd1 : Z := 209.
+Definition bd2 : Z := 210.
+Definition bd3 : Z := 211.
+Definition bd4 : Z := 212.
+Definition bd5 : Z := 213.
+Definition bd6 : Z := 214.
+Definition bd7 : Z := 215.
+Definition bd8 : Z := 216.
+Definition bd9 : Z := 217.
+Definition bda : Z := 218.
+Definition bdb : Z := 219.
+Definition bdc : Z := 220.
+Definition bdd : Z := 221.
+Definition bde : Z := 222.
+Definition bdf : Z := 223.
+Definition be0 : Z := 224.
+Definition be1 : Z := 225.
+Definition be2 : Z := 226.
+Definition be3 : Z := 227.
+Definition be4 : Z := 228.
+Definition be5 : Z := 229.
+Definition be6 : Z := 230.
+Definition be7 : Z := 231.
+Definition be8 : Z := 232.
+Definition be9 : Z := 233.
+Definition bea : Z := 234.
+Definition beb : Z := 235.
+Definition bec : Z := 236.
+Definition bed : Z := 237.
+Definition bee : Z := 238.
+Definition bef : Z := 239.
+Definition bf0 : Z := 240.
+Definition bf1 : Z := 241.
+Definition bf2 : Z := 242.
+Definition bf3 : Z := 243.
+Definition bf4 : Z := 244.
+Definition bf5 : Z := 245.
+Definition bf6 : Z := 246.
+Definition bf7 : Z := 247.
+Definition bf8 : Z := 248.
+Definition bf9 : Z := 249.
+Definition bfa : Z := 250.
+Definition bfb : Z := 251.
+Definition bfc : Z := 252.
+Definition bfd : Z := 253.
+Definition bfe : Z := 254.
+Definition bff : Z := 255.
+
 (* CRC-32C (Castagnoli, reflected polynomial 0x82F63B78), bitwise *)
 Definition crc_bit (c : Z) : Z := if Z.odd c then Z.lxor (c / 2) 2197175160 else c / 2.
 Definition crc_byte (crc b : Z) : Z :=
